@@ -495,8 +495,36 @@ fn gen_case(rng: &mut Rng, k: i64, depth: u32) -> Geometry<f64> {
     }
 }
 
+/// finite coordinates of extreme magnitude (up to f64::MAX): finiteness must be judged per ordinate
+fn huge(rng: &mut Rng) -> f64 {
+    let m = *rng.pick(&[f64::MAX, 1e308, 8.9e307, 1.7e308, 4.5e307, 1e300, f64::MIN_POSITIVE, 5e-324]);
+    if rng.chance(1, 3) { -m } else { m }
+}
+fn huge_coord(rng: &mut Rng) -> Coord<f64> {
+    Coord { x: huge(rng), y: huge(rng) }
+}
+
 pub fn gen(rng: &mut Rng, _index: u64) -> String {
     let k = *rng.pick(&[3i64, 4, 4, 6]);
+    if rng.chance(1, 25) {
+        // types whose validity is (almost) only coordinate finiteness, at extreme finite magnitudes
+        let g = match rng.below(5) {
+            0 => Geometry::Point(Point(huge_coord(rng))),
+            1 => Geometry::MultiPoint(MultiPoint((0..rng.range(1, 3)).map(|_| Point(huge_coord(rng))).collect())),
+            2 => {
+                let a = huge_coord(rng);
+                let mut b = huge_coord(rng);
+                if a == b { b.x = -b.x; }
+                Geometry::Line(Line::new(a, b))
+            }
+            3 => Geometry::Rect(Rect::new(huge_coord(rng), huge_coord(rng))),
+            _ => Geometry::GeometryCollection(GeometryCollection(vec![
+                Geometry::Point(Point(huge_coord(rng))),
+                Geometry::Rect(Rect::new(huge_coord(rng), huge_coord(rng))),
+            ])),
+        };
+        return format!("C14.valid {}", proto::geom(&g));
+    }
     let g = if rng.chance(1, 4) {
         // the valid stream of the shared generators, in two representations
         let g = gen_valid(rng, k);
